@@ -275,8 +275,34 @@ def replay_upsert(r):
     return bool(sel), {'function': 'LatticeColumn.upsert', 'class': cls.__name__, 'layer': ne, 'clause': clause, 'failed': sel[:6]}
 
 
+def replay_set_delayed(r):
+    """real LatticeColumn with two layers; entries whose round lies before, at, one below and after the given one"""
+    from leuvenmapmatching.matcher.base import BaseMatching, LatticeColumn
+    from leuvenmapmatching.util.segment import Segment
+    d = int(val(r.model, 'new_round', 2))
+    d = max(-5, min(5, d))
+    old = int(val(r.model, 'e_delayed!1', d - 2)) if any(k.startswith('e_delayed') for k in (r.model or {})) else d - 2
+    for k, v in (r.model or {}).items():
+        if k.startswith('e_delayed'):
+            old = int(val(r.model, k, d - 2))
+    old = max(-8, min(8, old))
+    col = LatticeColumn(0)
+    ents = []
+    for j, (ne, dl) in enumerate([(0, old), (0, d - 1), (0, d), (1, old), (1, d + 1)]):
+        m = BaseMatching(None, Segment(f"a{j}", (0.0, 0.0), f"b{j}", (1.0, 0.0), (0.5, 0.0), 0.5), Segment('o', (0.5, 0.1)), logprob=-1.0 - j,
+                         logprobema=-1.0, logprobe=-1.0, logprobne=0.0, dist_obs=0.1, obs=0, obs_ne=ne, stop=False, length=1, delayed=dl)
+        col.upsert(m)
+        ents.append((m, dl, m.logprob))
+    col.set_delayed(d)
+    bad = [f"entry {m.key} had round {dl}, has {m.delayed} after set_delayed({d})" for m, dl, lp in ents if m.delayed != d]
+    bad += [f"entry {m.key}: log-probability changed" for m, dl, lp in ents if m.logprob != lp]
+    return bool(bad), {'function': 'LatticeColumn.set_delayed', 'given_round': d, 'failed': bad}
+
+
 def replayer(r):
     n = r.ob.name
+    if n.startswith('LatticeColumn.set_delayed'):
+        return replay_set_delayed(r)
     if n.startswith('LatticeColumn.upsert'):
         return replay_upsert(r)
     if n.startswith('BaseMatching.update'):
